@@ -499,14 +499,33 @@ func checkAttrGuards(c *Ctx) {
 func checkSiblingKeys(c *Ctx) {
 	collect := func(fi *FuncInfo, maxDepth int) (read, written map[string]token.Pos) {
 		read, written = map[string]token.Pos{}, map[string]token.Pos{}
-		seen := map[*types.Func]bool{}
-		var visit func(f *FuncInfo, depth int)
-		visit = func(f *FuncInfo, depth int) {
-			if seen[f.Obj] || depth > maxDepth {
+		seen := map[string]bool{}
+		// env binds string parameters of a package-local helper to the constant
+		// passed at the call site being followed (a helper that takes the key).
+		var visit func(f *FuncInfo, depth int, env map[types.Object]string)
+		visit = func(f *FuncInfo, depth int, env map[types.Object]string) {
+			var ek []string
+			for o, v := range env {
+				ek = append(ek, o.Name()+"="+v)
+			}
+			sort.Strings(ek)
+			sk := f.Obj.FullName() + "|" + strings.Join(ek, ",")
+			if seen[sk] || depth > maxDepth {
 				return
 			}
-			seen[f.Obj] = true
+			seen[sk] = true
 			info := f.Info()
+			constOf := func(e ast.Expr) (string, bool) {
+				if k, ok := stringConst(info, e); ok {
+					return k, true
+				}
+				if id, ok := ast.Unparen(e).(*ast.Ident); ok {
+					if v, ok := env[info.ObjectOf(id)]; ok {
+						return v, true
+					}
+				}
+				return "", false
+			}
 			ast.Inspect(f.Decl.Body, func(m ast.Node) bool {
 				call, ok := m.(*ast.CallExpr)
 				if !ok {
@@ -517,7 +536,7 @@ func checkSiblingKeys(c *Ctx) {
 					return true
 				}
 				if len(call.Args) > 0 {
-					if k, ok := stringConst(info, call.Args[0]); ok {
+					if k, ok := constOf(call.Args[0]); ok {
 						switch {
 						case hclWriterFuncs[fn.Name()] && fn.Pkg() != nil && (fn.Pkg().Path() == pHCL || fn.Pkg().Path() == pSpecutil):
 							if _, dup := written[k]; !dup {
@@ -531,14 +550,26 @@ func checkSiblingKeys(c *Ctx) {
 					}
 				}
 				if fn.Pkg() != nil && fn.Pkg().Path() == f.Pkg.PkgPath {
-					if cf := c.FuncInfoOf(fn); cf != nil {
-						visit(cf, depth+1)
+					if cf := c.FuncInfoOf(fn); cf != nil && cf.Decl.Body != nil {
+						sub := map[types.Object]string{}
+						idx := 0
+						for _, fld := range cf.Decl.Type.Params.List {
+							for _, nm := range fld.Names {
+								if idx < len(call.Args) {
+									if v, ok := constOf(call.Args[idx]); ok {
+										sub[cf.Info().ObjectOf(nm)] = v
+									}
+								}
+								idx++
+							}
+						}
+						visit(cf, depth+1, sub)
 					}
 				}
 				return true
 			})
 		}
-		visit(fi, 0)
+		visit(fi, 0, nil)
 		return
 	}
 	n := 0
